@@ -76,6 +76,10 @@ void dump_meta(zckCtx *zck, FILE *out, const char *prefix) {
 }
 
 /* ------------------------------------------------------------------ reading */
+/* job line "recover 1": after a failed read the caller clears the error (zck_clear_error) and goes on reading - what a
+ * caller that wants to salvage the rest of a stream would do; the default is to repeat the read with the error pending */
+int g_read_recover = 0;
+
 /* read to the end on an already opened context (closes it, does not free it) */
 read_res lib_read_ctx(zckCtx *zck, const int *sched, int nsched, size_t cap, bool want_rets) {
     read_res r;
@@ -106,7 +110,8 @@ read_res lib_read_ctx(zckCtx *zck, const int *sched, int nsched, size_t cap, boo
         if(got < 0) {
             /* C15: a few further reads after the first error must not yield data either */
             if(!r.first_err_at) { r.first_err_at = r.nreads; r.bytes_before_err = r.content.n; }
-            if(++after_error > 3) break;
+            if(++after_error > (g_read_recover ? 8 : 3)) break;
+            if(g_read_recover && !zck_clear_error(zck)) break;   /* fatal errors cannot be cleared */
             continue;
         }
         if(got == 0) break;
